@@ -992,8 +992,9 @@ def _compute_delj(dx, MInt, VInt, axis=0):
         with numpy.errstate(over='ignore', invalid='ignore', divide='ignore'):
             epsj = numpy.exp(wj/VInt[upslice])
             delj = (-epsj*wj + epsj * VInt[upslice] - VInt[upslice])/(wj - epsj*wj)
-            # Where exp overflowed, use the limit of the expression as epsj -> inf.
-            delj = numpy.where(numpy.isinf(epsj), 1 - VInt[upslice]/wj, delj)
+            # Where exp is huge (or overflows, as may its products above), use
+            # the limit of the expression as epsj -> inf.
+            delj = numpy.where(wj/VInt[upslice] > 500, 1 - VInt[upslice]/wj, delj)
         # These where statements filter out edge case for delj
         delj = numpy.where(numpy.isnan(delj), 0.5, delj)
         delj = numpy.where(numpy.isinf(delj), 0.5, delj)
